@@ -121,6 +121,12 @@ func (p *ProjectRunner) runProcess(config *types.ProcessConfig) {
 		procLog = pclog.NewLogBuffer(0)
 	}
 	procState, _ := p.GetProcessState(config.ReplicaName)
+	if procState == nil {
+		// the process was renamed or removed (scaling, project update) while this
+		// request was on its way: a nil state would crash the process goroutine
+		log.Error().Msgf("Error: process %s doesn't exist any more, not starting it", config.ReplicaName)
+		return
+	}
 	isMain := config.Name == p.mainProcess
 	hasMain := p.mainProcess != ""
 	printLogs := !hasMain && !p.isTuiOn
